@@ -456,3 +456,42 @@ def canary_step(u: U):
     u.call(f, d, u.bytes("chunk"))
     for b in log:
         u.check("C09.canary", blen(SBytes.of(b)) <= 10, "false")
+
+
+@unit("C09", "payload_parser.init", functions=[f"{HP}:HttpPayloadParser.__init__"])
+def payload_parser_init(u: U):
+    """HttpPayloadParser.__init__: a compressed body is always read through a DeflateBuffer whose per-step output cap
+    is the connection's read-buffer limit (so the bound of C09.deflate.step_cap is 'max(limit, low water)', a constant
+    factor of the configured limit - not some unrelated default)"""
+    made = []
+
+    class _DB:
+        def __init__(self, out, encoding, max_decompress_size=None):
+            made.append((out, encoding, max_decompress_size))
+
+        def feed_eof(self):
+            pass
+
+    class _Payload:
+        def feed_eof(self):
+            pass
+
+    limit = u.int("limit", 1)
+    comp = (None, "gzip")[u.choose(2, "compression")]
+    auto = u.choose(2, "auto_decompress") == 1
+    body = u.choose(2, "response_with_body") == 1
+    p = u.obj("HttpPayloadParser", {}, {}, shared=False)
+    f = u.load(HP, "HttpPayloadParser.__init__", globals={"DeflateBuffer": _DB})
+    pl = _Payload()
+    out = u.call(f, p, pl, length=(None, 5)[u.choose(2, "length")], chunked=u.choose(2, "chunked") == 1, compression=comp,
+                 response_with_body=body, auto_decompress=auto, headers_parser="HP", limit=limit)
+    u.check("C09.init.total", out.ok, repr(out))
+    if not out.ok:
+        return
+    wrapped = bool(comp and auto and body)
+    u.check("C09.init.decompress_iff_wanted", (len(made) == 1) == wrapped,
+            "a DeflateBuffer is put in front of the payload exactly for a compressed body that is to be decoded")
+    if made:
+        u.check("C09.init.step_cap_is_read_limit", made[0][0] is pl and made[0][1] == comp and made[0][2] is limit,
+                "its per-step output cap is the read-buffer limit of this connection")
+        u.check("C09.init.payload_is_buffer", isinstance(fields(p)["payload"], _DB), "the parser feeds the decoder, not the raw reader")
